@@ -772,6 +772,82 @@ static void meta_run(MetaCase const &c, std::vector<int> const &order, std::stri
   if (chdir("..") != 0) { fprintf(stderr, "HARNESS-ERROR: chdir\n"); exit(2); }
 }
 
+// ---- a walker outside the grid: there the bias is the analytic sum of the hills kept off the grid, its own and the peers' ----
+// Walker 0 stays at `a` (inside the grid near the upper boundary 12, or outside), walker 1 at `b` outside; every hill of a walker is
+// the same Gaussian, so walker 1's energy at b is (its own hills) + m * g(b - a) with m the number of walker 0's hills it counts:
+// m must be a whole number, at most the hills walker 0 has deposited and, right after a synchronisation, at least those it had published.
+struct OffCase { double a, b; bool b_deposits; int upd, rfreq, L, extra, pattern; };
+static std::string off_conf(int wi, OffCase const &c)
+{
+  return "colvarsRestartFrequency " + std::to_string(c.rfreq) + "\n"
+         "colvar {\n name d\n width 0.5\n lowerBoundary 0.0\n upperBoundary 12.0\n distance {\n group1 { atomNumbers 1 }\n group2 { atomNumbers 2 }\n }\n}\n"
+         "metadynamics {\n name m\n colvars d\n hillWeight 1.0\n hillWidth 3.0\n newHillFrequency " + std::string(wi == 1 && !c.b_deposits ? "1000" : "1") + "\n multipleReplicas on\n replicaID w" + std::to_string(wi) +
+         "\n replicasRegistry registry.txt\n replicaUpdateFrequency " + std::to_string(c.upd) + "\n}\n";
+}
+static void meta_offgrid_run(OffCase const &c, std::string const &dir, Result &r, std::string const &cj)
+{
+  g_meta_nogrids = false;
+  std::string cmd = "rm -rf '" + dir + "' && mkdir -p '" + dir + "'";
+  if (system(cmd.c_str()) || chdir(dir.c_str()) != 0) { fprintf(stderr, "HARNESS-ERROR: scratch\n"); exit(2); }
+  Controller ctl;
+  std::vector<WalkerSpec> specs(2);
+  for (int i = 0; i < 2; i++) { specs[i].conf = off_conf(i, c); specs[i].out_prefix = "w" + std::to_string(i); specs[i].temperature = 0; }
+  ctl.spawn(specs);
+  if (!ctl.fatal.empty()) { fprintf(stderr, "HARNESS-ERROR: %s\n", ctl.fatal.c_str()); exit(2); }
+  double const sigma = 0.75;
+  double const pos[2] = {c.a, c.b};
+  double const g = std::exp(-(c.a - c.b) * (c.a - c.b) / (2.0 * sigma * sigma));
+  std::vector<int> order;
+  for (int st = 0; st < c.L + c.extra; st++) {
+    if (c.pattern == 0) { order.push_back(0); order.push_back(1); }
+    else if (c.pattern == 1) { order.push_back(1); order.push_back(0); }
+    else { order.push_back(0); if (st % 2) { order.push_back(1); order.push_back(1); } }
+  }
+  if (c.pattern == 2) while (std::count(order.begin(), order.end(), 1) < c.L + c.extra) order.push_back(1);
+  long next[2] = {0, 0}, last_sync[2] = {-1, -1};
+  int ndep[2] = {0, 0};
+  std::vector<long> dep_steps[2];
+  bool failed = false;
+  std::string raw_all;
+  for (size_t k = 0; k < order.size() && !failed; k++) {
+    int i = order[k];
+    long s = next[i]++;
+    ctl.start_step(i, s, pos[i], 0);
+    r.count("transitions");
+    if (!ctl.fatal.empty()) { r.violation("C14:meta:walker-died-or-hung", cj.substr(0, cj.size() - 1) + ",\"problem\":\"" + jesc(ctl.fatal) + "\"}"); failed = true; break; }
+    if (ctl.w[i].errors) {
+      r.violation("C14:meta:error-reported-with-complete-peer-files", cj.substr(0, cj.size() - 1) + ",\"walker\":" + std::to_string(i) + ",\"error\":\"" + jesc(ctl.w[i].errtxt.substr(0, 200)) + "\"}");
+      failed = true; break;
+    }
+    if (s >= 1 && (i == 0 || c.b_deposits)) { ndep[i]++; dep_steps[i].push_back(s); }   // (a hill at every step but the first)
+    bool synced = (s > 0 && (s % c.upd) == 0);
+    if (synced) last_sync[i] = s;
+    // every walker that is outside the grid is examined
+    for (int w = 0; w < 2 && !failed; w++) {
+      if (pos[w] < 12.0) continue;
+      if (next[w] == 0) continue;
+      std::string raw = ctl.query(w, "P " + num(pos[w]));
+      raw_all += raw + "|";
+      double e = atof(raw.c_str());
+      int p = 1 - w;
+      double m = (e - ndep[w]) / g;
+      long mr = std::lround(m);
+      int published = 0;
+      for (long ds : dep_steps[p]) if (ds < last_sync[p]) published++;
+      std::string det = cj.substr(0, cj.size() - 1) + ",\"after_action\":" + std::to_string(k) + ",\"walker\":" + std::to_string(w) + ",\"energy_at_its_position\":" + num(e) + ",\"own_hills\":" + std::to_string(ndep[w]) +
+                        ",\"one_peer_hill_there\":" + num(g) + ",\"peer_hills_counted\":" + num(m) + ",\"peer_hills_deposited\":" + std::to_string(ndep[p]) + ",\"peer_hills_published\":" + std::to_string(published) + "}";
+      if (std::fabs(m - mr) > 1e-6) { r.violation("C14:meta:walker-outside-the-grid:energy-is-not-own-hills-plus-a-whole-number-of-peer-hills", det); failed = true; }
+      else if (mr > ndep[p] || mr < 0) { r.violation("C14:meta:walker-outside-the-grid:peer-hills-counted-more-than-once", det); failed = true; }
+      else if (w == i && synced && mr < published) { r.violation("C14:meta:walker-outside-the-grid:published-peer-hills-missing-after-synchronisation", det); failed = true; }
+      r.count("offgrid_energies_checked");
+    }
+  }
+  r.seen("states", fnv(cj + raw_all));
+  r.seen("nontrivial", fnv(cj));
+  ctl.kill_all();
+  if (chdir("..") != 0) { fprintf(stderr, "HARNESS-ERROR: chdir\n"); exit(2); }
+}
+
 int main(int argc, char **argv)
 {
   Args args(argc, argv);
@@ -875,12 +951,22 @@ int main(int argc, char **argv)
     }
   }
 
+  std::vector<OffCase> offc;
+  for (double a : {11.25, 11.75, 10.25, 12.25})
+    for (double b : {12.3, 12.8})
+      for (int bd = 0; bd <= 1; bd++)
+        for (int upd = 1; upd <= 2; upd++)
+          for (int rf = 2; rf <= 3; rf++)
+            for (int pat = 0; pat < 3; pat++) {
+              if (!thorough && (b > 12.5 || (rf == 3 && pat != 0))) continue;
+              offc.push_back({a, b, bd != 0, upd, rf, thorough ? 7 : 5, 6, pat});
+            }
   if (getenv("C14_DEBUG")) {
     for (auto &c : abf) if (c.czar && c.n == 3 && !c.rendezvous) { std::vector<int> none; AbfOutcome o = abf_execute(c, none); fprintf(stderr, "problem: %s\n", o.problem.c_str()); }
     return 0;
   }
   Result total;
-  size_t njobs = abf.size() + mj.size();
+  size_t njobs = abf.size() + mj.size() + offc.size();
   bool ok = run_sharded(args.jobs, [&](int shard, int nsh, Result &r) {
     std::string base = "sh" + std::to_string(shard) + "_dir";
     if (system(("rm -rf " + base + " && mkdir -p " + base).c_str()) || chdir(base.c_str()) != 0) { fprintf(stderr, "HARNESS-ERROR: scratch\n"); exit(2); }
@@ -896,6 +982,12 @@ int main(int argc, char **argv)
         abf_explore(c, none, 0, r, stop, nexec, outcomes, cj);
         if (c.bound > 0) r.notes.push_back(cj + ": " + std::to_string(nexec) + " schedules, " + std::to_string(outcomes.size()) + " distinct final data set(s)");
         if (j < 3) r.sample(cj);
+      } else if (j >= abf.size() + mj.size()) {
+        OffCase const &c = offc[j - abf.size() - mj.size()];
+        std::string cj = "{\"part\":\"multiple-walker metadynamics, a walker outside the grid\",\"walker0_at\":" + num(c.a) + ",\"walker1_at\":" + num(c.b) + ",\"walker1_deposits\":" + (c.b_deposits ? "true" : "false") +
+                         ",\"replicaUpdateFrequency\":" + std::to_string(c.upd) + ",\"colvarsRestartFrequency\":" + std::to_string(c.rfreq) + ",\"steps\":" + std::to_string(c.L) + ",\"order\":" + std::to_string(c.pattern) + "}";
+        r.count("evaluations");
+        meta_offgrid_run(c, "mw", r, cj);
       } else {
         MetaJob const &m = mj[j - abf.size()];
         std::string cj = "{\"part\":\"multiple-walker metadynamics\",\"walkers\":" + std::to_string(m.c.n) + ",\"steps\":" + std::to_string(m.c.L) + ",\"replicaUpdateFrequency\":" +
